@@ -10,7 +10,8 @@ import (
 // C03: compiled basic patterns accept exactly the documented mask language.
 //
 // case: <pattern hex> TAB <match-case 0|1> TAB <list of subject strings>
-// obs:  <preparePattern status>;<regexp source text hex>;<MatchString per subject>    (E: rule rejected)
+// obs:  <preparePattern status>;<regexp source text hex>;<MatchString per subject>[!flag]    (E: rule rejected)
+// Go-side oracle: NetworkRule.Match on a request for each subject agrees with the compiled expression.
 //
 // The rule is NewNetworkRule(pattern + "$domain=x.org" [",match-case"]); the domain restriction makes
 // every pattern (also 1-2 character ones) acceptable to the parser.
@@ -147,7 +148,8 @@ func init() {
 			}
 			bits := ""
 			hit := false
-			for _, s := range subjects {
+			flag := ""
+			for i, s := range subjects {
 				var ok bool
 				if pn, _ := protect(func() { _, ok = rule.VerifRegexpMatch(s) }); pn {
 					bits += "P"
@@ -155,12 +157,21 @@ func init() {
 				}
 				bits += b01(ok)
 				hit = hit || ok
+				// the matcher as requests see it: NetworkRule.Match on a request for this URL from x.org must accept
+				// exactly what the compiled expression accepts (the shortcut pre-check never rejects an accepted
+				// string, C05; the rule carries no other modifier)
+				var m bool
+				if pn, _ := protect(func() { m = rule.Match(rules.NewRequest(s, "http://x.org/", rules.TypeOther)) }); pn {
+					flag = fmt.Sprintf("!MATCH-PANICS:subject %d", i)
+				} else if m != ok && flag == "" {
+					flag = fmt.Sprintf("!MATCH-DIFFERS-FROM-COMPILED-PATTERN:subject %d compiled=%v Match=%v", i, ok, m)
+				}
 			}
 			st.Inc(fmt.Sprintf("status_%d", status))
 			if hit {
 				st.Inc("some_subject_accepted")
 			}
-			return fmt.Sprintf("%d;%s;%s", status, hx(src), bits), line, status == 1
+			return fmt.Sprintf("%d;%s;%s", status, hx(src), bits) + flag, line, status == 1
 		},
 	})
 }
